@@ -198,6 +198,13 @@ def check_scorer(rec, spec, X, label, t, pp, cuts=None, record=True, batch=False
         return
     want = base[:, perm] if (t["type"] == "perm" and spec["uni"]) else base
     for i, c in enumerate(cuts):
+        if np.any(np.isnan(want[i])) != np.any(np.isnan(tran[i])) and spec["gauss"] == "cov" and t["type"] in ("scale", "shift", "perm"):
+            # the slices of this cut are well conditioned (filtered above) and conditioning is invariant under the transform: "not positive
+            # definite" on one side only is a difference between the two runs like any other
+            side = "the transformed X" if np.any(np.isnan(tran[i])) else "X"
+            rec.violation(key + ":raises-one-side", f"{spec['name']} on n={n},p={p}, transform {t}: cut {list(c)} is scored on one side but raises the "
+                          f"'not positive definite' RuntimeError on {side}", "C12.scorer", dict(inp, cuts=[list(c)]))
+            return
         if np.any(np.isnan(want[i])) or np.any(np.isnan(tran[i])):
             continue
         if record:
@@ -214,6 +221,7 @@ def check_scorer(rec, spec, X, label, t, pp, cuts=None, record=True, batch=False
 
 def scorer_level(rec, tier, seed):
     rng = np.random.default_rng(seed)
+    wide_cov_scale_check(rec, np.random.default_rng(seed + 77))
     ns = (5, 7) if tier == "quick" else (4, 5, 6, 7, 8)
     reps = 1 if tier == "quick" else 3
     for n in ns:
@@ -242,6 +250,21 @@ def scorer_level(rec, tier, seed):
                             # the same for data held as integers (counts): the statement is about the values, not their dtype;
                             # the shifted / scaled copy is a float array, the original an int64 one
                             check_scorer(rec, spec, np.rint(3 * X).astype(np.int64), label + "-int64", t, pp)
+
+
+def wide_cov_scale_check(rec, rng):
+    """Many columns (p = 8): the determinant of the covariance scales like a**(2p), so anything absolute in the multivariate Gaussian cost
+    (a fixed tolerance on the determinant, an additive jitter) shows at moderate scale factors only when p is not tiny."""
+    n, p = 24, 8
+    X = rng.normal(size=(n, p)) * rng.uniform(0.7, 2.5, size=p) + rng.uniform(-3, 3, size=p)
+    pp = make_pp(p, rng)
+    for spec in scorer_specs(p, pp):
+        if spec["gauss"] != "cov" or not spec["optimal"] or spec["kind"] != "change":      # (the cost itself moves by n p log a^2; its change score does not)
+            continue
+        cuts = all_cuts(spec["kind"], n, spec["m"])[::7]
+        for a in (0.05, 20.0):
+            check_scorer(rec, spec, X, f"wide-n{n}p{p}", {"type": "scale", "a": a}, pp, cuts=cuts, record=False)
+            rec.case(("scorer-wide", spec["name"], a), True, None)
 
 
 def make_pp(p, rng):
